@@ -10,6 +10,7 @@ CONSTANTS
   MaxK = 2
   MaxF = 1
   CfgSpace <- LiveCfgs
+  SimBias = FALSE
 CHECK_DEADLOCK FALSE
 INVARIANT NoViolation
 PROPERTY C02_LimitedRunsTerminate
